@@ -744,7 +744,7 @@ def genDebugRunCase (seed idx : Nat) : Case := runGen seed idx do
       let ign ← chance 1 4
       let attrs : List Attr :=
         if transparentAt == some i then [.debug (.list { transparent := true })]
-        else if ign && transparentAt.isNone then [.debug (.list { ignore := true })] else []
+        else if ign then [.debug (.list { ignore := true })] else []   -- also next to a transparent field
       let nm := if raw && i == 0 then "r#type" else ["a", "b", "c", "d"].getD i "z"
       pure ({ attrs, name := if kind == .named then some nm else none, ty := Ty.simple "D" } : Field)
     pure { kind, fields := fs }
